@@ -1,3 +1,4 @@
 pub mod compile;
+pub mod drawhist;
 pub mod ift;
 pub mod sched;
